@@ -60,6 +60,10 @@ def _create_v3_parser(file: TextIO, with_pkg_include_dir: bool, include_dirs: Op
         else:
             raise _ConfigurationParseError('Configuration',
                                            f'Root (configuration) node is not an object (it\'s a `{type(root_node)}`)')
+    except RecursionError:
+        # too deeply nested YAML document
+        raise _ConfigurationParseError('Configuration',
+                                       'Cannot create configuration from YAML file: too many nested levels')
     except _ConfigurationParseError as exc:
         barectf_config_parse_common._append_error_ctx(exc, 'Configuration',
                                                       'Cannot create configuration from YAML file')
@@ -96,6 +100,10 @@ def _config_file_major_version(file: TextIO) -> VersionNumber:
         else:
             raise _ConfigurationParseError('Configuration',
                                            f'Root (configuration) node is not an object (it\'s a `{type(root_node)}`)')
+    except RecursionError:
+        # too deeply nested YAML document
+        raise _ConfigurationParseError('Configuration',
+                                       'Cannot load YAML file: too many nested levels')
     except _ConfigurationParseError as exc:
         barectf_config_parse_common._append_error_ctx(exc, 'Configuration', 'Cannot load YAML file')
 
